@@ -101,7 +101,7 @@ theorem eweyl_n_vacuum_spec (e : Env K) : ∀ i j : Fin 3,
 
 /-! ### E seen by the observer `u` -/
 
-theorem eweyl_u_spec (e : Env K) : ∀ a c : Fin 4,
+theorem eweyl_u_matches (e : Env K) : ∀ a c : Fin 4,
     eweyl_u_down4 e a c = eweylU e.st_Weyl_down4 e.uup4 a c := by
   cases4 <;> cases4 <;>
     (simp only [eweyl_u_down4, ↓vec4_0, ↓vec4_1, ↓vec4_2, ↓vec4_3, eweylU, Fin.sum_univ_four]; ring)
